@@ -21,18 +21,20 @@ EXPLANATION = (
     "(every well-formed description, any layout: blocks, header count, '#S' lines interleaved and duplicated, blank/"
     "comment lines, white-space of any Python-isspace kind, zero-vertex blocks, repeated edges, last line without newline) "
     "and the rejection theorems (malformed edge line, non-numeric weight, non-numeric / missing vertex count, constraint "
-    "edge absent; inside any multi-block file). NOT modelled, hence only sampled here: the stored width G.graph['w'] "
-    "(stDiGraph.get_width -> networkx condensation + network simplex) is compared per instance with a brute-force maximum "
-    "antichain; the value of int()/float() outside the grammar [+-]?digits[.digits]? (model answers Unmodelled); "
-    "file decoding / readlines(). Blocks that declare 0 vertices are validated by the code since /repo fc0735f (no constraints, no "
-    "non-blank non-'#' line after the count); the model has the same branch and the rejection theorems cover zero-count blocks.")
+    "edge absent, also in blocks that declare 0 vertices; inside any multi-block file). The result record is the complete "
+    "attribute set (id, constraints, and unless the count is 0: nodes, edges with flow, n, m, w); the count written in the file is "
+    "only compared with 0 and stored nowhere; the format has no width field. The stored width is modelled by its specified value "
+    "(Parser.width = size of a largest antichain of condensation items, proved in C20_stored_width_is_max_antichain), not by a "
+    "transcription of stDiGraph.get_width (networkx condensation + network simplex = external engine): that route is tied per "
+    "instance, model width == implementation width == the harness' own brute-force antichain. Only sampled: that tie, and the "
+    "value of int()/float() outside the grammar [+-]?digits[.digits]? (model answers Unmodelled); file decoding / readlines().")
 ASSUMPTIONS = [
     "lines handed to the model are exactly what f.readlines() returned (the harness writes UTF-8 files without '\\r' and compares on the same list of lines)",
     "float(token) is the correctly rounded double of the decimal the model returns (compared as float(Fraction(mantissa, 10**scale)) == weight)",
     "graph width is outside the model; it is checked per generated instance against a brute-force maximum antichain of inter-SCC edges and non-trivial SCCs",
-    "no-source / no-sink graphs that contain one-character node names are Unmodelled (networkx iterates the characters of 'source_<id>', DESIGN §6 #20)",
+    "graph width: the model returns the value get_width is specified to return (largest antichain, exhaustive search); the code's min-flow route is tied per instance (E3) and against the harness' own brute force",
 ]
-TRUSTED = ["model: coq/theories/Parser.v; proofs ParserProofs1-4.v; driver coq/driver/h_parser.ml (code-point lists in, integers out)"]
+TRUSTED = ["model: coq/theories/Parser.v; proofs ParserProofs1-5.v; driver coq/driver/h_parser.ml (code-point lists in, integers out)"]
 
 
 # ----------------------------------------------------------------------------- implementation side
@@ -43,6 +45,9 @@ def _gu():
 
 def impl_graph(G):
     g = {"id": G.graph.get("id"), "cons": [[list(p) for p in c] for c in G.graph.get("constraints", [])]}
+    # "and nothing else": the complete attribute set of the returned object
+    g["keys"] = sorted(G.graph)
+    g["extra_attrs"] = sorted({k for _, d in G.nodes(data=True) for k in d} | {"edge:" + k for _, _, d in G.edges(data=True) for k in d if k != "flow"})
     if "n" in G.graph or G.number_of_edges() or G.number_of_nodes():
         g["info"] = {"nodes": list(G.nodes()), "edges": sorted([u, v, d.get("flow")] for u, v, d in G.edges(data=True)),
                      "n": G.graph.get("n"), "m": G.graph.get("m"), "w": G.graph.get("w")}
@@ -103,7 +108,7 @@ def dec_graph(tk):
         for _ in range(tk.int()):
             u = tk.str(); v = tk.str(); neg = tk.int(); mant = tk.int(); scale = tk.int()
             edges.append([u, v, Fraction(-mant if neg else mant, 10 ** scale)])
-        g["info"] = {"nodes": nodes, "edges": sorted(edges), "n": tk.int(), "m": tk.int()}
+        g["info"] = {"nodes": nodes, "edges": sorted(edges), "n": tk.int(), "m": tk.int(), "w": tk.int()}
     else:
         g["info"] = None
     return g
@@ -132,6 +137,9 @@ def same_graph(mg, ig, with_width=None):
             return "id: expected str(id(..)), got %r" % (ig["id"],)
     elif mg["id"] != ig["id"]:
         return "id %r != %r" % (mg["id"], ig["id"])
+    want_keys = ["constraints", "id"] if mg["info"] is None else ["constraints", "id", "m", "n", "w"]
+    if "keys" in ig and (ig["keys"] != want_keys or ig["extra_attrs"]):
+        return "attribute set: graph keys %r (expected %r), other attributes %r" % (ig["keys"], want_keys, ig["extra_attrs"])
     if mg["cons"] != ig["cons"]:
         return "constraints %r != %r" % (mg["cons"], ig["cons"])
     if (mg["info"] is None) != (ig["info"] is None):
@@ -342,6 +350,50 @@ def gen_file(rng):
     if rng.random() < 0.3 and lines[-1][2].endswith("\n"):
         lines[-1] = lines[-1][:2] + (lines[-1][2][:-1],) + lines[-1][3:]       # last line without newline
     return lines, specs
+
+
+# ----------------------------------------------------------------------------- fixed corpus (runs first)
+def _spec(id_, cons, listed):
+    if listed is None:
+        return {"id": id_, "cons": cons, "info": None}
+    nodes = []; emap = {}
+    for u, v, x in listed:
+        for y in (u, v):
+            if y not in nodes:
+                nodes.append(y)
+        emap[(u, v)] = Fraction(x)
+    return {"id": id_, "cons": cons, "rep": len(emap) < len(listed),
+            "info": {"nodes": nodes, "edges": sorted([u, v, x] for (u, v), x in emap.items()), "n": len(nodes), "m": len(emap), "w": brute_width(list(emap))}}
+
+
+_PATH = [("a", "b", 1), ("b", "c", 1), ("c", "d", 1)]
+_STAR = [("a", "b", 1), ("a", "c", 1), ("a", "d", 1)]
+_SAT = [("s", "a", 1), ("a", "t", 2)]
+CORPUS_OK = [
+    # layouts of the seeded changes of round 4 and earlier (each was caught by the random stream; kept as fixed cases)
+    ("S-line-before-first-header", ["#S s a t\n", "# first header\n", "# second header\n", "3\n", "s a 1\n", "a t 2\n"],
+     [_spec("first header", [[["s", "a"], ["a", "t"]]], _SAT)]),
+    ("S-line-before-first-header:2nd-block", ["# g0\n", "2\n", "x y 1\n", "  #S s a\n", "#S a t\n", "## the id  \n", "3\n", "s a 1\n", "a t 2\n"],
+     [_spec("g0", [], [("x", "y", 1)]), _spec("the id", [[["s", "a"]], [["a", "t"]]], _SAT)]),
+    ("blank-lines-before-count:2", ["# g\n", "\n", "\n", "2\n", "a b 1.5\n"], [_spec("g", [], [("a", "b", "1.5")])]),
+    ("blank-lines-before-count:3-mixed", ["# g\n", "#S a b\n", "\n", "  \n", "\t\n", " 2\n", "a b 1.5\n"], [_spec("g", [[["a", "b"]]], [("a", "b", "1.5")])]),
+    ("blank-lines-before-count:2nd-block", ["# g0\n", "0\n", "\n", "# g1\n", "\n", "\x0c\n", "\n", "7\n", "a b 2\n"],
+     [_spec("g0", [], None), _spec("g1", [], [("a", "b", 2)])]),
+    ("S-lines-same-concatenation", ["# g\n", "#S 1 12 3\n", "#S 11 2 3\n", "#S 1 12 3\n", "5\n", "1 12 1\n", "12 3 1\n", "11 2 1\n", "2 3 1\n"],
+     [_spec("g", [[["1", "12"], ["12", "3"]], [["11", "2"], ["2", "3"]]], [("1", "12", 1), ("12", "3", 1), ("11", "2", 1), ("2", "3", 1)])]),
+    ("same-header-and-counts-different-width", ["# sample\n", "4\n"] + ["%s %s %d\n" % e for e in _PATH] + ["# sample\n", "4\n"] + ["%s %s %d\n" % e for e in _STAR],
+     [_spec("sample", [], _PATH), _spec("sample", [], _STAR)]),
+    ("declared-count-differs-from-node-count", ["# g\n", "99\n", "a b 1\n", "a b 3\n"], [_spec("g", [], [("a", "b", 1), ("a", "b", 3)])]),
+]
+CORPUS_RAISE = [
+    ("edge-line-extra-numeric-field", ["# g\n", "2\n", "a b 4 9\n"]),
+    ("edge-line-two-edges-on-one-line", ["# g\n", "3\n", "a b 4 a c 1\n"]),
+    ("constraint-with-unknown-tail", ["# g\n", "#S yy z\n", "2\n", "a b 1\n"]),
+    ("constraint-with-unknown-head", ["# g\n", "#S a zz\n", "2\n", "a b 1\n"]),
+    ("one-blank-then-garbage-count", ["# g\n", "\n", "\n", "two\n", "a b 1\n"]),
+    ("no-source", ["# g\n", "2\n", "s o 1\n", "o s 2\n"]),          # accepted before /repo 59945c9 (one-letter names of 'source_<id>')
+    ("no-sink", ["# g\n", "3\n", "a b 1\n", "b c 1\n", "c b 1\n"]),
+]
 
 
 # ----------------------------------------------------------------------------- corruptions
@@ -590,6 +642,13 @@ def run(ctx):
         string_layer(ctx)
         n_files = ctx.budget(650, 9000); n_single = ctx.budget(450, 6000)
         cases = []      # (stream, i, kind, fn_name, lines, specs or None, must_raise, in_zero)
+        for name, lines, specs in CORPUS_OK:
+            cases.append(("corpus", 0, "well-formed", "read_graphs", lines, specs, None, None))
+            if len(specs) == 1:
+                cases.append(("corpus", 0, "well-formed", "read_graph", lines, specs, None, None))
+        for name, lines in CORPUS_RAISE:
+            cases.append(("corpus", 0, "corpus:" + name, "read_graphs", lines, None, True, False))
+            cases.append(("corpus", 0, "corpus:" + name, "read_graph", lines, None, True, False))
         for i in range(n_files):
             rng = ctx.rng("files", i)
             lines, specs = gen_file(rng)
@@ -653,7 +712,7 @@ def run(ctx):
                     ctx.report(f"E3 correspondence broken ({fn}, {kind}): {d}", replay, concrete=False)
             # the model itself must satisfy what the theorems say on these instances (guards the harness' reading of the theorems)
             if specs is not None and mres[0] == "OK":
-                nowidth = [dict(s, info=(None if s["info"] is None else {k: v for k, v in s["info"].items() if k != "w"})) for s in specs]
+                nowidth = specs      # the model stores the width too: compared with the brute-force value of the description
                 asimpl = [dict(g, info=None if g["info"] is None else dict(g["info"], edges=[[u, v, float(x)] for u, v, x in g["info"]["edges"]]))
                           for g in mres[1]]
                 if any(g["info"] and any(Fraction(x) != y for (_, _, x), (_, _, y) in zip(s["info"]["edges"], g["info"]["edges"]))
